@@ -249,17 +249,14 @@ def normalise(route, data, prefix):
         return None
     if route in ("lib", "lib_after_others"):
         return data[:-1] if data.endswith(b"\n") else data
-    m = HEADER_RE.match(data)
-    if not m:
+    header, tail = procsim.split_header(data)
+    if not header:
         return None
-    tail = data[m.end():]
-    if route == "cli":
+    if route.startswith("cli"):
         if not tail.startswith(b"\n"):
             return None
         tail = tail[1:]
         return tail[:-1] if tail.endswith(b"\n") else tail
-    while tail.startswith(b"//"):
-        tail = tail[tail.index(b"\n") + 1:] if b"\n" in tail else b""
     want = b"\n" + prefix.encode() + b"\n"
     if not tail.startswith(want):
         return None
